@@ -7,11 +7,13 @@ CONSTANTS
   Shapes <- S_nwL_wmL
   Ctl <- C_ping_close_pong
   Closer = TRUE
+  Rd <- R_none
   ControlTakesLock = TRUE
   FlushAtomic = TRUE
   LatchChecked = TRUE
   CloseLatches = TRUE
   TimeoutReleases = FALSE
+  HandlerControlPath = TRUE
   Fifo = TRUE
   OnlyBad = FALSE
   Family = "simclient"
